@@ -2,7 +2,7 @@
 from ..framework import Check
 from .. import mgr_check
 
-THEOREMS = ['C01_exactly_once', 'C01_recipients_subscribed', 'C01_valid_dest', 'C01_dest_filter', 'C01_invalid_dest_nobody', 'C01_deliver_decision', 'C01_unmodified', 'C01_ex', 'C01_forward_exact', 'C01_forward_exact_ex']
+THEOREMS = ['C01_exactly_once', 'C01_recipients_subscribed', 'C01_valid_dest', 'C01_dest_filter', 'C01_invalid_dest_nobody', 'C01_deliver_decision', 'C01_unmodified', 'C01_ex', 'C01_forward_exact', 'C01_forward_exact_ex', 'C01_only_recipients', 'C01_only_recipients_service', 'C01_only_recipients_meaning', 'C01_only_recipients_ex', 'C01_only_recipients_ex_invalid']
 CHECKERS = ['C01', 'C03']
 
 
